@@ -177,4 +177,19 @@ def Chain.render {α} (t : Table) (cfg : RenderCfg) : Chain α → List Nat → 
     (sa ++ spaces n ++ ((t[o]?).map (·.repr)).getD [] ++ sr, sp)
 end
 
+/-! ### tables whose printed expressions lex unambiguously (hypothesis of C12)
+
+  The printer of deep expressions writes a binary operator name directly in front of `{`, `(`,
+  a literal or a unary operator name. `lexSafe t` says no longer operator name of the table can
+  swallow that next character. -/
+
+def printedNextStarts (t : Table) : List Char :=
+  ['{', '(', '.', '0', '1', '2', '3', '4', '5', '6', '7', '8', '9'] ++
+    (t.filter (·.unary)).filterMap (·.repr.head?)
+
+def lexSafe (t : Table) : Bool :=
+  t.all (fun p => !p.hasBin || t.all (fun r =>
+    !(p.repr.isPrefixOf r.repr && p.repr.length < r.repr.length) ||
+      !(printedNextStarts t).contains (r.repr.getD p.repr.length ' ')))
+
 end Exmex
